@@ -317,7 +317,7 @@ class StmtMixin:
                 return coll.items[-1]
             t, ek = self.to_seq(coll, path)
             path.env[var] = VSeq(z3.SubSeq(t, 0, n - 1), ek)
-            return ctx.val_of(ek, t[n - 1])
+            return ctx.val_of(ek, self.seq_nth(t, n - 1))
         elif name == 'add' and isinstance(coll, VSet):
             new = VSet(z3.SetAdd(coll.t, self.coerce(args[0], coll.elem_kind).t), coll.elem_kind)
         else:
